@@ -178,12 +178,16 @@ def opClassifyMeshb (ws : List String) : String :=
     match bytesOfHex? h with
     | none => "bad-op"
     | some bs =>
+      -- a second run with a 4 MB allocator: a different outcome means some `ref_adj_add` (or the CAD blob)
+      -- asked for more than that on the way, whatever the final status is
+      let small := decodeMeshbWith { Cfg.current with allocCap := 4000400 } bs
       match decodeMeshbWith Cfg.current bs with
       | .error .diverge => "hang"
       | .error .undefined => "index 2147483647"
-      | .error _ => "clean"
+      | .error e => if small != .error e then "index 1000000" else "clean"
       | .ok m =>
-        if indicesInRange m then "clean" else
+        if small != .ok m then "index 1000000"
+        else if indicesInRange m then "clean" else
           let idx := ((cellInfos.zip m.cells).flatMap fun p => p.2.flatMap fun c => c.take p.1.nodePer) ++
                      m.geoms.map (·.node)
           s!"index {idx.foldl max 0}"
